@@ -721,7 +721,10 @@ func FetchWithParallelRangeRequests(client *http.Client, rawURL string, cfg *Fet
 		}
 		defer resp.Body.Close()
 
-		if resp.StatusCode != http.StatusPartialContent && resp.StatusCode != http.StatusOK {
+		// Only 206 carries the requested range. A 200 means the server
+		// ignored the Range header and is sending the whole resource, which
+		// must not be spliced in as if it were this chunk.
+		if resp.StatusCode != http.StatusPartialContent {
 			resultCh <- chunkResult{index: index, err: fmt.Errorf("range request returned %d", resp.StatusCode), hedge: isHedge}
 			return
 		}
@@ -729,6 +732,10 @@ func FetchWithParallelRangeRequests(client *http.Client, rawURL string, cfg *Fet
 		data, err := io.ReadAll(resp.Body)
 		if err != nil {
 			resultCh <- chunkResult{index: index, err: err, hedge: isHedge}
+			return
+		}
+		if want := rangeEnd - rangeStart + 1; int64(len(data)) != want {
+			resultCh <- chunkResult{index: index, err: fmt.Errorf("range request returned %d bytes, want %d", len(data), want), hedge: isHedge}
 			return
 		}
 
@@ -794,6 +801,12 @@ func FetchWithParallelRangeRequests(client *http.Client, rawURL string, cfg *Fet
 	// we have a successful result for every chunk OR when we've drained
 	// every launched goroutine and some chunks are still missing.
 	for chunksRemaining > 0 {
+		// Every launched attempt has reported and some chunk is still
+		// missing: nothing more can arrive on resultCh, whatever order the
+		// failures and successes came in.
+		if expected <= 0 {
+			break
+		}
 		cr := <-resultCh
 		expected--
 		if cr.err != nil {
@@ -807,11 +820,6 @@ func FetchWithParallelRangeRequests(client *http.Client, rawURL string, cfg *Fet
 			}
 			if firstErr == nil {
 				firstErr = cr.err
-			}
-			// If no more attempts are in flight for this chunk, account
-			// for the missing result so the loop can exit deterministically.
-			if expected <= 0 && chunksRemaining > 0 {
-				break
 			}
 			continue
 		}
